@@ -7,3 +7,4 @@ open JetVerif.Props.C16
 #print axioms parseOp_never_caches
 #print axioms extension_order
 #print axioms all_extensions_probed_on_miss
+#print axioms unremembered_name_follows_extension_order
